@@ -59,6 +59,7 @@ type urlGhost struct {
 	Params [][2]*smt.Term
 }
 
+var tmplIf = regexp.MustCompile(`(?s)\{\{\s*if\s+\.([A-Za-z0-9_]+)\s*\}\}(.*?)\{\{\s*end\s*\}\}`)
 var tmplAction = regexp.MustCompile(`\{\{\s*\.([A-Za-z0-9_]+)\s*\}\}`)
 
 func init() {
@@ -484,14 +485,61 @@ func init() {
 				in.end("unmodelled", "template data nil")
 			}
 			var sv *StructV
+			var mv *MapObj
 			st, ok := data.T.Underlying().(*types.Struct)
 			if ok {
 				sv = data.V.(*StructV)
 			} else if pt, isP := data.T.Underlying().(*types.Pointer); isP {
 				st = pt.Elem().Underlying().(*types.Struct)
 				sv = in.load(data.V).(*StructV)
+			} else if mt, isM := data.T.Underlying().(*types.Map); isM && basicOf(mt.Key()) != nil && basicOf(mt.Elem()) != nil {
+				mv, _ = data.V.(*MapObj) // map[string]string: .Key looks the key up (missing key renders as empty)
 			} else {
 				in.end("unmodelled", "template data of type %s", data.T)
+			}
+			// lookup(field): the value bound to .field, whether its type is a trusted (typed) string, whether it exists
+			lookup := func(field string) (*smt.Term, bool, bool) {
+				if mv != nil || st == nil {
+					if mv != nil {
+						for _, e := range mv.Entries {
+							if k, _ := e.K.(*smt.Term); k != nil && k.Const && k.Str == field {
+								v, _ := e.V.(*smt.Term)
+								return v, false, v != nil
+							}
+						}
+					}
+					return smt.StrLit(""), false, true
+				}
+				for i := 0; i < st.NumFields(); i++ {
+					if st.Field(i).Name() == field {
+						v, isStr := sv.F[i].(*smt.Term)
+						if !isStr || v.K != smt.KStr {
+							in.end("unmodelled", "template field %s is not a string (type %s) at %s", field, st.Field(i).Type(), in.where())
+						}
+						_, plain := st.Field(i).Type().(*types.Basic)
+						return v, !plain, true
+					}
+				}
+				return nil, false, false
+			}
+			// {{if .Field}}body{{end}} (no else, not nested): the body is rendered iff the field is a non-empty string
+			for {
+				m := tmplIf.FindStringSubmatchIndex(text)
+				if m == nil {
+					break
+				}
+				v, _, okf := lookup(text[m[2]:m[3]])
+				if !okf {
+					return in.opaqueError("template-missing-field")
+				}
+				if in.Branch(smt.Not(smt.Eq(v, smt.StrLit("")))) {
+					text = text[:m[0]] + text[m[4]:m[5]] + text[m[1]:]
+				} else {
+					text = text[:m[0]] + text[m[1]:]
+				}
+			}
+			if strings.Contains(text, "{{if") || strings.Contains(text, "{{range") || strings.Contains(text, "{{with") || strings.Contains(text, "{{else") || strings.Contains(text, "{{end") {
+				in.end("unmodelled", "template control structure beyond {{if .Field}}..{{end}} at %s", in.where())
 			}
 			dst := a[1]
 			if ifc, ok := dst.(*Iface); ok {
@@ -504,22 +552,11 @@ func init() {
 				lit := text[pos:m[0]]
 				field := text[m[2]:m[3]]
 				pos = m[1]
-				fi := -1
-				for i := 0; i < st.NumFields(); i++ {
-					if st.Field(i).Name() == field {
-						fi = i
-					}
-				}
-				if fi < 0 {
+				// typed strings (template.HTML, template.HTMLAttr, template.JS, ...) are trusted by html/template and NOT escaped
+				val, trusted, okf := lookup(field)
+				if !okf {
 					return in.opaqueError("template-missing-field")
 				}
-				val, isStr := sv.F[fi].(*smt.Term)
-				if !isStr || val.K != smt.KStr {
-					in.end("unmodelled", "template field %s is not a string (type %s) at %s", field, st.Field(fi).Type(), in.where())
-				}
-				// typed strings (template.HTML, template.HTMLAttr, template.JS, ...) are trusted by html/template and NOT escaped
-				_, plain := st.Field(fi).Type().(*types.Basic)
-				trusted := !plain
 				segs = append(segs, tmplSeg{Lit: lit})
 				// context: inside a double-quoted attribute value?
 				inAttr := strings.Count(lit[strings.LastIndex(lit, "<")+1:], "\"")%2 == 1 && strings.LastIndex(lit, "<") > strings.LastIndex(lit, ">")
